@@ -57,6 +57,9 @@ def gen_cases(ctx):
                     base = {"n": n, "ids": ids, "pattern": pname,
                             "answers": [[times[k], "answer", perm[k]] for k in range(n)]}
                     yield base
+                    if pname in ("spread", "across_polls") and ids != "auto":
+                        # a second, unrelated connection in the same process whose callers use the very same ids
+                        yield dict(base, twin_connection=True)
                     if pname == "on_boundary" and ids == "auto":
                         # an answer sent at the very instant a poll slice ends: asyncio gives no order between the two
                         # timers, so explore both (seeded permutation of equal-deadline timers)
@@ -147,9 +150,33 @@ def exec_case(ctx, case: Dict[str, Any]) -> None:
             if timer:
                 await vsleep_until(max([a[0] for a in case["answers"]] + [0]) + 0.001)
 
+        twin_out: Dict[int, Any] = {}
+        twin_tasks = []
+        if case.get("twin_connection"):
+            pipe2 = Pipe()
+
+            async def twin_caller(i: int):
+                try:
+                    twin_out[i] = ("return", await send_message(
+                        pipe2.read, pipe2.write, "tools/call", {"tag": f"twin-{i}"}, timeout=TIMEOUT,
+                        message_id=(f"id-{i}" if case["ids"] == "explicit" else
+                                    ((i // 2 + 1) if i % 2 == 0 else str(i // 2 + 1)))))
+                except BaseException as e:  # noqa
+                    if isinstance(e, (KeyboardInterrupt, SystemExit)):
+                        raise
+                    twin_out[i] = ("raise", e)
+
+            async def twin_server():
+                reqs = [await pipe2.srv_recv.receive() for _ in range(n)]
+                for k, req in enumerate(reversed(reqs)):
+                    await vsleep_until(0.05 + 0.33 * k)
+                    pipe2.srv_send.send_nowait(parse_message({"jsonrpc": "2.0", "id": req.id, "result": {"tag": req.params["tag"]}}))
+            twin_tasks = [asyncio.create_task(twin_caller(i), name=f"twin-{i}") for i in range(n)]
+            twin_tasks.append(asyncio.create_task(twin_server(), name="twin-server"))
         tasks = [asyncio.create_task(caller(i), name=f"caller-{i}") for i in range(n)]
         st = asyncio.create_task(server(), name="server")
-        await asyncio.gather(*tasks)
+        await asyncio.gather(*tasks, *twin_tasks)
+        outcomes["twin"] = twin_out
         st.cancel()
         try:
             await st
@@ -166,6 +193,14 @@ def exec_case(ctx, case: Dict[str, Any]) -> None:
         ctx.record(case, shape="hang")
         return
 
+    twin_out = outcomes.pop("twin", {})
+    for i, (okind, oval) in twin_out.items():
+        ctx.count("twin_connection_calls")
+        if okind != "return":
+            ctx.count("twin_connection_calls_not_completed")   # the one-connection behaviour is judged on the first pipe
+        elif not (isinstance(oval, dict) and oval.get("tag") == f"twin-{i}"):
+            ctx.violation("cross_talk_between_connections", f"caller {i} on the second connection (same ids as the "
+                          f"first) ended with {oval!r}", case)
     recvs = [e for e in trace.events if e["op"] == "receive" and e.get("done")]
     ctx.count("receive_events", len(recvs))
     consumer: Dict[Any, List[str]] = {}
